@@ -130,6 +130,21 @@ pub fn gen(tier: &str, seed: u64, outdir: &str) {
             cs.push(app("CShuf2", vec![Tm::N(sd), fl(&d), fl(&d2), outcome_list(&res), Tm::N(st)]), &format!("shuffle_two/{}", if res.is_ok() { if n == 1 { "len1" } else { "ok" } } else { "panic" }), nt);
         }
     }
+    // 4b. corners of the stated ranges: exactly 200 resamples (the stated maximum) and exactly 1, on one value repeated, on zeros of
+    // both signs and NaN only, on special values only; from the seeds whose first 64-bit word is 0 and the other edge seeds
+    let corner: [(usize, usize); 8] = [(1, 200), (2, 200), (3, 200), (20, 200), (7, 1), (64, 1), (5, 199), (33, 2)];
+    for (i, &(n, nb)) in corner.iter().enumerate() {
+        let sd = EDGE_SEEDS[(i + 5) % EDGE_SEEDS.len()];
+        let d = data_o(&mut r, n, 4 + (i as u64 % 3));
+        let nt = n >= 2;
+        let (res, st) = seeded(sd, || flat(&bootstrap(&d, nb)));
+        cs.push(app("CBoot", vec![Tm::N(sd), fl(&d), Tm::Nat(nb as u64), outcome_list(&res), Tm::N(st)]), &format!("bootstrap/{}", if res.is_ok() { if n == 1 { "len1" } else { "ok" } } else { "panic" }), nt);
+        let (res, st) = seeded(sd, || shuffle(&d));
+        cs.push(app("CShuf", vec![Tm::N(sd), fl(&d), outcome_list(&res), Tm::N(st)]), &format!("shuffle/{}", if res.is_ok() { if n == 1 { "len1" } else { "ok" } } else { "panic" }), nt);
+        let d2 = data_o(&mut r, n, 5 + (i as u64 % 2));
+        let (res, st) = seeded(sd, || { let (a, b) = shuffle_two(&d, &d2); let mut v = a; v.extend_from_slice(&b); v });
+        cs.push(app("CShuf2", vec![Tm::N(sd), fl(&d), fl(&d2), outcome_list(&res), Tm::N(st)]), &format!("shuffle_two/{}", if res.is_ok() { if n == 1 { "len1" } else { "ok" } } else { "panic" }), nt);
+    }
     // 5. malformed stream: shuffle_two with different lengths
     for i in 0..(30 * k) {
         let sd = a_seed(&mut r, i);
@@ -151,6 +166,108 @@ fn len_class(n: usize) -> &'static str { if n == 1 { "len=1" } else { "len>=2" }
 /// upper quantile of chi-square with `df` degrees of freedom at normal deviate z (Wilson-Hilferty), made generous
 fn chi2_crit(df: f64, z: f64) -> f64 { let a = 2.0 / (9.0 * df); df * (1.0 - a + z * a.sqrt()).powi(3) * 1.05 + 5.0 }
 
+/// oracle data vectors: the four kinds of `data` plus one value repeated n times (possibly a special), zeros of both signs
+/// and NaN only (the sign of a zero is part of the element), special values only
+fn data_o(r: &mut Rng, n: usize, kind: u64) -> Vec<f64> {
+    match kind % 7 {
+        4 => { let c = if r.coin(0.5) { *r.pick(&SPECIALS) } else { r.uniform(-10.0, 10.0) }; vec![c; n] }
+        5 => (0..n).map(|_| *r.pick(&[0.0, -0.0, f64::NAN])).collect(),
+        6 => (0..n).map(|_| *r.pick(&SPECIALS)).collect(),
+        k => data(r, n, k),
+    }
+}
+
+/// wyrand's increment; the seeds `ZERO_OUT_1/2` make the first state 0 resp. equal to the xor constant, so that the first 64-bit word is 0
+const WY_INC: u64 = 0xa0761d6478bd642f;
+const ZERO_OUT_1: u64 = 0u64.wrapping_sub(WY_INC);
+const ZERO_OUT_2: u64 = 0xe7037ed1a0b428dbu64.wrapping_sub(WY_INC);
+const EDGE_SEEDS: [u64; 8] = [0, 1, u64::MAX, 1 << 63, (1 << 63) - 1, ZERO_OUT_1, ZERO_OUT_2, WY_INC];
+
+/// `stream`: Some(seed) = the stream started by `alea::set_seed(seed)`; None = the thread's stream as it stands (no reseeding)
+fn on_stream<R>(stream: Option<u64>, f: impl FnOnce() -> R) -> Result<R, String> {
+    if let Some(sd) = stream { alea::set_seed(sd); }
+    catch(f)
+}
+
+/// the four clauses of the statement on one (stream, data, n_bootstrap)
+fn check_point(stream: Option<u64>, sdesc: &str, d: &[f64], kind: u64, nb: usize, out: &mut Vec<Finding>, tried: &mut u64) {
+    let n = d.len();
+    let input = format!("{} data={} n_bootstrap={}", sdesc, json_floats(d), nb);
+    let input = if input.len() > 1200 { format!("{} data=[{} values, kind {}] n_bootstrap={}", sdesc, n, kind, nb) } else { input };
+    let dbits = bits(d);
+    let dset: std::collections::HashSet<u64> = dbits.iter().cloned().collect();
+    // bootstrap: count, lengths, membership
+    *tried += 1;
+    crumb(&format!("bootstrap {}", input));
+    match on_stream(stream, || bootstrap(d, nb)) {
+        Err(e) => out.push(Finding { class: format!("bootstrap:panics {}", len_class(n)), what: format!("bootstrap panicked on a length-{} vector: {}", n, e), input: input.clone() }),
+        Ok(rs) => {
+            if rs.len() != nb { out.push(Finding { class: "bootstrap:wrong-count".into(), what: format!("{} resamples returned, {} requested", rs.len(), nb), input: input.clone() }); }
+            for row in &rs {
+                if row.len() != n { out.push(Finding { class: "bootstrap:wrong-length".into(), what: format!("resample of length {} from data of length {}", row.len(), n), input: input.clone() }); break; }
+                if bits(row).iter().any(|b| !dset.contains(b)) { out.push(Finding { class: "bootstrap:invented-element".into(), what: "a resample contains a value that is not in the data".into(), input: input.clone() }); break; }
+            }
+        }
+    }
+    // jackknife = the n leave-one-out vectors in order
+    *tried += 1;
+    crumb(&format!("jackknife {}", input));
+    match catch(|| jackknife(d)) {
+        Err(e) => out.push(Finding { class: format!("jackknife:panics {}", len_class(n)), what: format!("jackknife panicked: {}", e), input: input.clone() }),
+        Ok(js) => {
+            let mut ok = js.len() == n;
+            if ok { for (i, v) in js.iter().enumerate() {
+                let g = bits(v);
+                if g.len() != n - 1 || g[..i] != dbits[..i] || g[i..] != dbits[i + 1..] { ok = false; break; }
+            } }
+            if !ok { out.push(Finding { class: "jackknife:not-leave-one-out".into(), what: "jackknife did not return the n leave-one-out vectors in order".into(), input: input.clone() }); }
+        }
+    }
+    // shuffle: same multiset
+    *tried += 1;
+    crumb(&format!("shuffle {}", input));
+    match on_stream(stream, || shuffle(d)) {
+        Err(e) => out.push(Finding { class: format!("shuffle:panics {}", len_class(n)), what: format!("shuffle panicked on a length-{} vector: {}", n, e), input: input.clone() }),
+        Ok(v) => if sorted(bits(&v)) != sorted(dbits.clone()) { out.push(Finding { class: "shuffle:not-a-permutation".into(), what: "shuffle changed the multiset of values".into(), input: input.clone() }); }
+    }
+    // shuffle_two: one common permutation (first array distinct, so the permutation is recoverable)
+    *tried += 1;
+    let a: Vec<f64> = (0..n).map(|i| i as f64).collect();
+    crumb(&format!("shuffle_two arr1=[0,1,..,{}] arr2=data {}", n as i64 - 1, input));
+    match on_stream(stream, || shuffle_two(&a, d)) {
+        Err(e) => out.push(Finding { class: format!("shuffle_two:panics {}", len_class(n)), what: format!("shuffle_two panicked on length-{} vectors: {}", n, e), input: input.clone() }),
+        Ok((pa, pb)) => {
+            let mut seen = vec![false; n];
+            let mut ok = pa.len() == n && pb.len() == n;
+            if ok { for j in 0..n { let i = pa[j] as usize; if pa[j] != i as f64 || i >= n || seen[i] { ok = false; break; } seen[i] = true; if bits(&[pb[j]]) != bits(&[d[i]]) { ok = false; break; } } }
+            if !ok { out.push(Finding { class: "shuffle_two:unpaired".into(), what: "shuffle_two did not apply one common permutation to both arrays".into(), input: input.clone() }); }
+        }
+    }
+    // the pairing clause with the data in the FIRST argument too (both argument orders, both arrays with repeats / specials):
+    // the positions are recovered from the second, distinct, array
+    *tried += 1;
+    crumb(&format!("shuffle_two arr1=data arr2=[0,1,..,{}] {}", n as i64 - 1, input));
+    match on_stream(stream, || shuffle_two(d, &a)) {
+        Err(e) => out.push(Finding { class: format!("shuffle_two:panics {}", len_class(n)), what: format!("shuffle_two panicked on length-{} vectors: {}", n, e), input: input.clone() }),
+        Ok((pb, pa)) => {
+            let mut seen = vec![false; n];
+            let mut ok = pa.len() == n && pb.len() == n;
+            if ok { for j in 0..n { let i = pa[j] as usize; if pa[j] != i as f64 || i >= n || seen[i] { ok = false; break; } seen[i] = true; if bits(&[pb[j]]) != bits(&[d[i]]) { ok = false; break; } } }
+            if !ok { out.push(Finding { class: "shuffle_two:unpaired".into(), what: "shuffle_two did not apply one common permutation to both arrays (data in the first argument)".into(), input: input.clone() }); }
+        }
+    }
+}
+
+/// DiscreteUniform sampling: support, integrality, degenerate interval
+fn check_du(sd: u64, lo: i64, hi: i64, m: usize, out: &mut Vec<Finding>, tried: &mut u64) {
+    *tried += 1;
+    crumb(&format!("DiscreteUniform::new(lower, upper).sample_n({}) seed={} lower={} upper={}", m, sd, lo, hi));
+    match seeded(sd, || DiscreteUniform::new(lo, hi).sample_n(m).to_vec()).0 {
+        Err(e) => out.push(Finding { class: format!("discreteuniform:sample-panics {}", if lo == hi { "lower=upper" } else { "lower<upper" }), what: format!("DiscreteUniform::new({}, {}).sample() panicked: {}", lo, hi, e), input: format!("seed={} lower={} upper={} n={}", sd, lo, hi, m) }),
+        Ok(v) => if v.len() != m || v.iter().any(|x| *x < lo as f64 || *x > hi as f64 || x.fract() != 0.0) { out.push(Finding { class: "discreteuniform:sample-out-of-support".into(), what: format!("sample outside {}..={}: {:?}", lo, hi, &v[..v.len().min(40)]), input: format!("seed={} lower={} upper={} n={}", sd, lo, hi, m) }); }
+    }
+}
+
 pub fn oracle(tier: &str, seed: u64) -> (u64, Vec<Finding>) {
     let thorough = tier == "thorough";
     let mut r = Rng::new(seed ^ 0x0C19);
@@ -159,90 +276,96 @@ pub fn oracle(tier: &str, seed: u64) -> (u64, Vec<Finding>) {
     let mut lens: Vec<usize> = (1..=12).collect();
     lens.extend_from_slice(&[16, 17, 31, 64, 100, 257]);
     if thorough { lens.extend_from_slice(&[500, 1000, 2000]); } else { lens.push(2000); }
+    // lengths around the powers of two and the stated maximum, each visited at least once per run (in rotation over the seeds)
+    const EDGE_LENS: [usize; 22] = [13, 14, 15, 32, 33, 63, 65, 127, 128, 129, 255, 256, 511, 512, 513, 1023, 1024, 1025, 1998, 1999, 2000, 1];
     for s in 0..nseeds {
         // every seed: the small lengths in rotation; the large ones on a few seeds only
-        let todo: Vec<usize> = if s < 3 { lens.clone() } else { vec![lens[s % 12], lens[(s * 7 + 3) % lens.len().min(17)]] };
-        for &n in &todo {
-            if n > 300 && s >= 3 { continue; }
-            let sd = if s % 2 == 0 { r.next() } else { s as u64 };
-            let kind = r.below(4);
-            let d = data(&mut r, n, kind);
-            let nb = if n > 300 { 2 } else { 1 + r.below(if s % 10 == 0 { 200 } else { 8 }) as usize };
-            let input = format!("seed={} data={} n_bootstrap={}", sd, json_floats(&d), nb);
-            let input = if input.len() > 1200 { format!("seed={} data=[{} values, kind {}] n_bootstrap={}", sd, n, kind, nb) } else { input };
-            let dbits = bits(&d);
-            // bootstrap: count, lengths, membership
-            tried += 1;
-            crumb(&format!("bootstrap {}", input));
-            match seeded(sd, || bootstrap(&d, nb)).0 {
-                Err(e) => out.push(Finding { class: format!("bootstrap:panics {}", len_class(n)), what: format!("bootstrap panicked on a length-{} vector: {}", n, e), input: input.clone() }),
-                Ok(rs) => {
-                    if rs.len() != nb { out.push(Finding { class: "bootstrap:wrong-count".into(), what: format!("{} resamples returned, {} requested", rs.len(), nb), input: input.clone() }); }
-                    for row in &rs {
-                        if row.len() != n { out.push(Finding { class: "bootstrap:wrong-length".into(), what: format!("resample of length {} from data of length {}", row.len(), n), input: input.clone() }); break; }
-                        if bits(row).iter().any(|b| !dbits.contains(b)) { out.push(Finding { class: "bootstrap:invented-element".into(), what: "a resample contains a value that is not in the data".into(), input: input.clone() }); break; }
-                    }
-                }
-            }
-            // jackknife = the n leave-one-out vectors in order
-            tried += 1;
-            crumb(&format!("jackknife {}", input));
-            match catch(|| jackknife(&d)) {
-                Err(e) => out.push(Finding { class: format!("jackknife:panics {}", len_class(n)), what: format!("jackknife panicked: {}", e), input: input.clone() }),
-                Ok(js) => {
-                    let want: Vec<Vec<u64>> = (0..n).map(|i| (0..n).filter(|j| *j != i).map(|j| dbits[j]).collect()).collect();
-                    let got: Vec<Vec<u64>> = js.iter().map(|v| bits(v)).collect();
-                    if got != want { out.push(Finding { class: "jackknife:not-leave-one-out".into(), what: "jackknife did not return the n leave-one-out vectors in order".into(), input: input.clone() }); }
-                }
-            }
-            // shuffle: same multiset
-            tried += 1;
-            crumb(&format!("shuffle {}", input));
-            match seeded(sd, || shuffle(&d)).0 {
-                Err(e) => out.push(Finding { class: format!("shuffle:panics {}", len_class(n)), what: format!("shuffle panicked on a length-{} vector: {}", n, e), input: input.clone() }),
-                Ok(v) => if sorted(bits(&v)) != sorted(dbits.clone()) { out.push(Finding { class: "shuffle:not-a-permutation".into(), what: "shuffle changed the multiset of values".into(), input: input.clone() }); }
-            }
-            // shuffle_two: one common permutation (first array distinct, so the permutation is recoverable)
-            tried += 1;
-            let a: Vec<f64> = (0..n).map(|i| i as f64).collect();
-            crumb(&format!("shuffle_two arr1=[0,1,..,{}] arr2=data {}", n as i64 - 1, input));
-            match seeded(sd, || shuffle_two(&a, &d)).0 {
-                Err(e) => out.push(Finding { class: format!("shuffle_two:panics {}", len_class(n)), what: format!("shuffle_two panicked on length-{} vectors: {}", n, e), input: input.clone() }),
-                Ok((pa, pb)) => {
-                    let mut seen = vec![false; n];
-                    let mut ok = pa.len() == n && pb.len() == n;
-                    if ok { for j in 0..n { let i = pa[j] as usize; if pa[j] != i as f64 || i >= n || seen[i] { ok = false; break; } seen[i] = true; if bits(&[pb[j]]) != bits(&[d[i]]) { ok = false; break; } } }
-                    if !ok { out.push(Finding { class: "shuffle_two:unpaired".into(), what: "shuffle_two did not apply one common permutation to both arrays".into(), input: input.clone() }); }
-                }
-            }
+        let mut todo: Vec<usize> = if s < 3 { lens.clone() } else { vec![lens[s % 12], lens[(s * 7 + 3) % lens.len().min(17)]] };
+        todo.retain(|n| !(*n > 300 && s >= 3));
+        let base = todo.len();
+        // coverage of the stated range 1..2000: a random length of the middle range every seed, a random long one every
+        // fourth seed, the edge lengths in rotation
+        todo.push(13 + r.below(288) as usize);
+        if s % 4 == 1 { todo.push(301 + r.below(1700) as usize); }
+        if s % 4 == 3 { todo.push(EDGE_LENS[(s / 4) % EDGE_LENS.len()]); }
+        for (ti, &n) in todo.iter().enumerate() {
+            let sd = if s % 2 == 0 { r.next() } else if s % 16 == 15 { EDGE_SEEDS[(s / 16 + ti) % EDGE_SEEDS.len()] } else { s as u64 };
+            let kind = r.below(7);
+            let d = data_o(&mut r, n, kind);
+            // 1..200 resamples: both ends of the stated range on every length class; the full range on every tenth seed
+            let nb = if ti < base {
+                if n > 300 { 2 } else { 1 + r.below(if s % 10 == 0 { 200 } else { 8 }) as usize }
+            } else {
+                match (s + ti) % 4 { 0 => 200, 1 => 1, 2 => 1 + r.below(200) as usize, _ => 2 + r.below(7) as usize }
+            };
+            check_point(Some(sd), &format!("seed={}", sd), &d, kind, nb, &mut out, &mut tried);
         }
-        // DiscreteUniform sampling: support, integrality, degenerate interval
         let lo = r.range(-100, 100); let hi = lo + if s % 3 == 0 { 0 } else { r.below(50) as i64 };
-        tried += 1;
-        let sd = r.next();
-        crumb(&format!("DiscreteUniform::new(lower, upper).sample_n(20) seed={} lower={} upper={}", sd, lo, hi));
-        match seeded(sd, || DiscreteUniform::new(lo, hi).sample_n(20).to_vec()).0 {
-            Err(e) => out.push(Finding { class: format!("discreteuniform:sample-panics {}", if lo == hi { "lower=upper" } else { "lower<upper" }), what: format!("DiscreteUniform::new({}, {}).sample() panicked: {}", lo, hi, e), input: format!("seed={} lower={} upper={}", sd, lo, hi) }),
-            Ok(v) => if v.iter().any(|x| *x < lo as f64 || *x > hi as f64 || x.fract() != 0.0) { out.push(Finding { class: "discreteuniform:sample-out-of-support".into(), what: format!("sample outside {}..={}: {:?}", lo, hi, v), input: format!("seed={} lower={} upper={}", sd, lo, hi) }); }
+        check_du(r.next(), lo, hi, 20, &mut out, &mut tried);
+        // the index distribution the four functions use: 0..=n-1 for n up to the stated maximum, and n draws from it
+        let n = match s % 5 { 0 => 1, 1 => 2000, 2 => 1 + r.below(2000) as usize, 3 => 1usize << r.below(11), _ => 1 + r.below(64) as usize };
+        let sd = if s % 8 == 7 { EDGE_SEEDS[(s / 8) % EDGE_SEEDS.len()] } else { r.next() };
+        check_du(sd, 0, n as i64 - 1, n.min(if s % 5 == 1 { 2000 } else { 200 }), &mut out, &mut tried);
+    }
+    // every edge seed (0, 1, 2^64-1, 2^63, the two seeds whose first 64-bit word is 0, ...) on the first lengths, a middle
+    // one and the stated maximum, with 1 and with 200 resamples (the corner length 2000 x 200 resamples included)
+    for (si, &sd) in EDGE_SEEDS.iter().enumerate() {
+        for (li, &n) in [1usize, 2, 3, 4, 7, 64, 1999, 2000].iter().enumerate() {
+            if n > 300 && !(thorough || si % 4 == li % 4) { continue; }
+            for &nb in &[1usize, 200] {
+                let kind = r.below(7);
+                let d = data_o(&mut r, n, kind);
+                check_point(Some(sd), &format!("seed={}", sd), &d, kind, nb, &mut out, &mut tried);
+            }
         }
     }
+    // "every random stream": a stream that is seeded ONCE and then continued from call to call without reseeding, on another
+    // thread than the one used so far (alea's state is thread-local; the clock-derived default seed of a new thread is just
+    // another odd seed and is not used here: every evaluation point must be reproducible from `seed`)
+    let fresh = std::thread::spawn(move || {
+        let mut r = Rng::new(seed ^ 0x19C0);
+        let mut out: Vec<Finding> = vec![]; let mut tried = 0u64;
+        alea::set_seed(r.next() | 1);
+        for &n in &[1usize, 2, 3, 5, 8, 33, 300, 2000] {
+            for &nb in &[1usize, 3, 200] {
+                let kind = r.below(7);
+                let d = data_o(&mut r, n, kind);
+                let st = alea::get_seed();
+                check_point(None, &format!("stream=continued-without-reseeding state-before-bootstrap={}", st), &d, kind, nb, &mut out, &mut tried);
+            }
+        }
+        (tried, out)
+    }).join();
+    match fresh {
+        Ok((t, o)) => { tried += t; out.extend(o); }
+        Err(_) => out.push(Finding { class: "bootstrap:panics len>=2".into(), what: "the resampling functions aborted the thread of the continued stream".into(), input: "stream=continued-without-reseeding".into() }),
+    }
     // every position equally likely: chi-square of positional frequencies at alpha = 1e-12 (z = 7.03; 7.5 used)
-    let rounds = if thorough { 40 } else { 8 };
+    const SIZES: [usize; 12] = [2, 3, 5, 7, 10, 16, 33, 100, 257, 1000, 1999, 2000];
+    let rounds = if thorough { 48 } else { 12 };
     for t in 0..rounds {
-        let n = [2usize, 3, 5, 7, 10, 16, 33, 100][t % 8];
+        let n = SIZES[t % SIZES.len()];
         let nb = 200; let reps = (20000 / (n * nb)).max(1) * 10;
         let d: Vec<f64> = (0..n).map(|i| i as f64).collect();
-        let sd = r.next();
+        let sd = if t / SIZES.len() == 1 { EDGE_SEEDS[t % EDGE_SEEDS.len()] } else { r.next() };
         alea::set_seed(sd);
         tried += 1;
         crumb(&format!("bootstrap positional frequencies seed={} n={} n_bootstrap={} repetitions={}", sd, n, nb, reps));
-        let res = catch(|| { let mut c = vec![0u64; n]; let mut tot = 0u64; for _ in 0..reps { for row in bootstrap(&d, nb) { for x in row { c[x as usize] += 1; tot += 1; } } } (c, tot) });
-        if let Ok((c, tot)) = res {
+        // c: how often each data position is drawn; per output slot as well when the table is small (n <= 16)
+        let slots = n <= 16;
+        let res = catch(|| { let mut c = vec![0u64; n]; let mut cs = vec![0u64; if slots { n * n } else { 0 }]; let mut tot = 0u64;
+            for _ in 0..reps { for row in bootstrap(&d, nb) { for (i, x) in row.iter().enumerate() { c[*x as usize] += 1; if slots { cs[i * n + *x as usize] += 1; } tot += 1; } } } (c, cs, tot) });
+        if let Ok((c, cs, tot)) = res {
             let e = tot as f64 / n as f64;
             let chi: f64 = c.iter().map(|o| (*o as f64 - e) * (*o as f64 - e) / e).sum();
             if chi > chi2_crit((n - 1) as f64, 7.5) { out.push(Finding { class: "bootstrap:positions-not-uniform".into(), what: format!("chi-square {} over {} draws of {} positions exceeds the 1e-12 critical value", chi, tot, n), input: format!("seed={} n={} n_bootstrap={} repetitions={}", sd, n, nb, reps) }); }
+            if slots {
+                // the same demand slot by slot: in every output slot every data position is equally likely (n slots x (n-1) df)
+                let e = tot as f64 / (n * n) as f64;
+                let chi: f64 = cs.iter().map(|o| (*o as f64 - e) * (*o as f64 - e) / e).sum();
+                if chi > chi2_crit((n * (n - 1)) as f64, 7.5) { out.push(Finding { class: "bootstrap:positions-not-uniform".into(), what: format!("chi-square {} of the (output slot, data position) table over {} draws of {} positions exceeds the 1e-12 critical value", chi, tot, n), input: format!("seed={} n={} n_bootstrap={} repetitions={}", sd, n, nb, reps) }); }
+            }
         }
-        // shuffle: every element lands on every position about equally often (2n random transpositions; coarse)
     }
     (tried, out)
 }
